@@ -1,7 +1,7 @@
 """C17 — configuration entries reach exactly the modules they address.
 
 Script `inc_at op*` (strings = length-prefixed UTF-8 bytes; see harness/src/bin/props.rs, coq/Props/Model.v `run`):
-  1 <key> val | 2 <path> | 3 m <name> ty | 4 m <name> ty val | 5 m <name>
+  1 <key> val | 2 <path> | 3 m <name> ty | 4 m <name> ty val | 5 m <name> | 6 <key> val (late include)
 """
 import itertools
 
@@ -9,7 +9,7 @@ ID = "C17"; MODEL = "props"; IMPL = "props"
 COQ_PROP = "Properties/C17.v"; COQ_DIRS = ["Common", "Props"]
 COQ_MODULE = "Props.Model"; RUN_FN = "run"
 THEOREMS = ["C17_capture_sound", "C17_capture_complete", "C17_no_foreign_entries", "C17_include_order_irrelevant",
-            "C17_typed_stable"]
+            "C17_typed_stable", "C17_include_keeps_slot", "C17_typed_stable_across_includes", "C17_late_keeps_type"]
 QUICK_N = 2500; THOROUGH_N = 150000
 CLAIM = dict(
     text="Machine-checked (Coq 8.16, axiom-free) about a byte-level model of Cfg::new (compartmentalize) and Props::update_from: "
@@ -22,7 +22,10 @@ CLAIM = dict(
          "a module nobody addresses receives nothing, and an entry for a same-depth sibling never addresses this module whatever "
          "text the names share (alice/alicent, a/a\u00e9); including the configuration before, between or after the node creations "
          "gives every module exactly the direct capture for its path; once a property holds a value of type T every later typed "
-         "read/write with another type is the InvalidInput error and changes nothing, the first typed read converts the "
+         "read/write with another type is the InvalidInput error and changes nothing - also across configurations included while "
+         "the node exists: such an include never changes a property that already has a slot, whatever the slot's state (configured, "
+         "typed, or the empty slot a lookup left; Props::set is first-set-wins), so typed accesses interleaved with arbitrary late "
+         "includes still answer like a cell of the first type; the first typed read converts the "
          "configuration number once to that very number or fails leaving it untouched. Refutation witnesses show the guards are "
          "needed. Tied to the code on every run by differential execution of the extracted model against des_net_utils::props "
          "(YAML text -> from_str -> Cfg::new -> capture_for_into) AND against des (Sim::include_cfg before/between/after Sim::node, "
@@ -34,8 +37,9 @@ CLAIM = dict(
          "entry_at_wildcard_prefix: `a: 1` next to `a.<any>.x: 2` makes the wildcard entry disappear (module a.z does not receive x) "
          "- excluded by hypothesis, witness in coq/Refuted/C17.v, re-demonstrated on every run. Outside the quantifier (no property "
          "name / malformed keys): keys ending in '<any>', empty segments, '<any>' inside a segment - checked for crashes and "
-         "model/code agreement only. Reading a property before include_cfg creates an empty slot that blocks the later "
-         "configuration value (Props::set keeps the first entry): outside the property's statement, not exercised.",
+         "model/code agreement only. Looking a property up before include_cfg creates an empty slot that blocks the later "
+         "configuration value (Props::set keeps the first entry): modelled and exercised (late stream), accepted by the monitor "
+         "since the property's text does not speak about it.",
     technique="Coq: denotation of nested mappings as flat segment-keyed entries, shape invariant of compartmentalised mappings, "
               "permutation-preservation proof for compartmentalize (induction on fuel/keys), soundness+completeness of update_from "
               "by induction on path length, entry state machine + differential correspondence check at two API levels",
@@ -43,7 +47,10 @@ CLAIM = dict(
 RULE = ("scripts = flat configuration (1..12 dotted keys over a segment alphabet built to share byte prefixes: a, ab, abc, "
         "a-b, é, aé, alice, alicent; '<any>' at every depth; property names that are themselves module names or dotted) + "
         "1..6 module paths of depth 1..4 (addressed modules, their prefix-sharing siblings, ancestors, descendants) + include "
-        "position (before / between / after node creation) + typed read/write/raw operations; 12% malformed stream (wildcard "
+        "position (before / between / after node creation) + typed read/write/raw operations; 25% late stream: once all nodes "
+        "exist a property is read / written / looked up through a handle, only then further one-entry configurations addressing "
+        "it (specifically or through '<any>') are included, and it is re-read with another and with the same type; final state of "
+        "every module's properties is dumped; 12% malformed stream (wildcard "
         "inside a segment, empty segments, trailing wildcard, duplicate keys, entry keyed by another entry's address prefix); "
         "non-trivial = distinct script (sha1) hitting at least two targeted mechanisms")
 TRUSTED = ["YAML text -> serde_yml::Value (parser) is exercised by the harness but not modelled: the model starts from the "
@@ -74,6 +81,7 @@ def e_module(path): return [2] + lp(path)
 def e_read(m, name, ty): return [3, m] + lp(name) + [ty]
 def e_write(m, name, ty, v): return [4, m] + lp(name) + [ty, v]
 def e_raw(m, name): return [5, m] + lp(name)
+def e_late(key, val): return [6] + lp(key) + [val]
 
 
 def split(script):
@@ -87,7 +95,7 @@ def split(script):
         return j + 1 + k
     while i < n:
         t = script[i]
-        if t == 1:
+        if t == 1 or t == 6:
             j = take(i + 1); j = None if j is None or j + 1 > n else j + 1
         elif t == 2:
             j = take(i + 1)
@@ -117,7 +125,8 @@ def _b(xs):
 
 
 def parse(script):
-    """-> (inc_at, entries [(key, val)], paths [bytes], typed ops)"""
+    """-> (inc_at, entries [(key, val)], paths [bytes], late ops in order: typed accesses (3|4|5, m, name, ..) and
+    late includes (6, None, key, val))"""
     hdr, ops = split(script)
     entries, paths, tops = [], [], []
     for o in ops:
@@ -131,6 +140,8 @@ def parse(script):
             tops.append((4, o[1], _b(o[3:3 + o[2]]), o[-2] % 4, o[-1]))
         elif o[0] == 5:
             tops.append((5, o[1], _b(o[3:3 + o[2]])))
+        elif o[0] == 6:
+            tops.append((6, None, _b(o[2:2 + o[1]]), o[-1]))
     return (hdr[0] if hdr else 0), entries, paths, tops
 
 
@@ -146,6 +157,7 @@ def pretty(script):
     for o in tops:
         if o[0] == 3: t.append("m%d.prop::<%s>(%s)" % (o[1], TYN[o[3]], _s(o[2])))
         elif o[0] == 4: t.append("m%d.prop::<%s>(%s).set(%d)" % (o[1], TYN[o[3]], _s(o[2]), o[4]))
+        elif o[0] == 6: t.append("include_cfg{%s: %d}" % (_s(o[2]), o[3]))
         else: t.append("m%d.prop_raw(%s)" % (o[1], _s(o[2])))
     return "cfg {%s} modules [%s] include_cfg after %d nodes%s" % (cfg, mods, inc, ("; " + "; ".join(t)) if t else "")
 
@@ -185,7 +197,7 @@ def valid(script):
     for p in paths:
         if not okb(p) or any(s == b"" for s in p.split(b".")): return False
     if len(set(paths)) != len(paths): return False
-    return all(okb(o[2]) for o in tops)
+    return all(okb(o[2]) for o in tops)   # names of typed accesses and keys of late includes
 
 
 def wf_key(k):
@@ -234,26 +246,31 @@ def _value(out, i):
     raise Bad("bad value tag %d" % t)
 
 
+def _dump(out, i, tag):
+    if i >= len(out) or out[i] != tag: raise Bad("expected a dump record (%d) at %d" % (tag, i))
+    n = out[i + 1]; i += 2; d = []
+    for _ in range(n):
+        k, i = _lpb(out, i)
+        v, i = _value(out, i)
+        d.append((k, v))
+    return d, i
+
+
 def walk_level(out, i, nmods, tops):
-    """-> (panic site | None, cfgflag, dumps [dict name->value], typed results [list], next index)"""
-    dumps, res = [], []
-    flag = None
+    """-> (panic site | None, dumps [[(name, value)]], results per late op, final dumps, next index)"""
+    dumps, res, fin = [], [], []
     if i < len(out) and out[i] == 9:
-        return out[i + 1], None, [], [], i + 2
+        return out[i + 1], [], [], [], i + 2
     for _ in range(nmods):
-        if i >= len(out) or out[i] != 10: raise Bad("expected a dump record at %d" % i)
-        n = out[i + 1]; i += 2; d = []
-        for _ in range(n):
-            k, i = _lpb(out, i)
-            v, i = _value(out, i)
-            d.append((k, v))
+        d, i = _dump(out, i, 10)
         dumps.append(d)
     if nmods:
         for o in tops:
-            if i >= len(out): raise Bad("typed results truncated")
-            t = out[i]
+            t = out[i] if i < len(out) else None
             if t == 9:
                 res.append((9, out[i + 1])); i += 2
+            elif o[0] == 6:
+                res.append((6,))
             elif t == 3:
                 if out[i + 1] == 1:
                     res.append((3, 1, out[i + 2])); i += 3
@@ -265,28 +282,31 @@ def walk_level(out, i, nmods, tops):
                 v, i = _value(out, i + 1)
                 res.append((5, v))
             else:
-                raise Bad("bad typed record %d" % t)
-    return None, flag, dumps, res, i
+                raise Bad("bad typed record %s" % t)
+        for _ in range(nmods):
+            d, i = _dump(out, i, 12)
+            fin.append(d)
+    return None, dumps, res, fin, i
 
 
 def walk(script, out):
-    """-> None for a rejected script, else dict(l1=(panic, cfgflag, dumps, res), l2=(panic, dumps, res))"""
+    """-> None for a rejected script, else dict(l1=(panic, cfgflag, dumps, res, final), l2=(panic, dumps, res, final))"""
     if out == [7]:
         return None
     _, entries, paths, tops = parse(script)
     if not out or out[0] != 100: raise Bad("no level-1 marker")
     i = 1
     if out[i] == 9:
-        l1 = (out[i + 1], None, [], []); i += 2
+        l1 = (out[i + 1], None, [], [], []); i += 2
     else:
         flag = out[i]; i += 1
-        p, _, d, r, i = walk_level(out, i, len(paths), tops)
-        l1 = (p, flag, d, r)
+        p, d, r, f, i = walk_level(out, i, len(paths), tops)
+        l1 = (p, flag, d, r, f)
     if i >= len(out) or out[i] != 200: raise Bad("no level-2 marker at %d" % i)
     i += 1
-    p, _, d, r, i = walk_level(out, i, len(paths), tops)
+    p, d, r, f, i = walk_level(out, i, len(paths), tops)
     if i != len(out): raise Bad("trailing output")
-    return dict(l1=l1, l2=(p, d, r))
+    return dict(l1=l1, l2=(p, d, r, f))
 
 
 # ----------------------------------------------------------------------------- monitor
@@ -312,13 +332,29 @@ def check_capture(entries, path, dump, where):
     return None
 
 
-def check_typed(entries, paths, dumps, tops, res, where):
-    """A property keeps the type it was first (successfully) read or written with; reading it as another type is an error."""
-    fixed = {}   # (m, name) -> (ty, number)
+def enc_typed(ty, v):
+    return {0: (0, v), 1: (0, v), 2: (2, v), 3: (3, v)}[ty]
+
+
+def check_typed(entries, paths, dumps, tops, res, final, where):
+    """A property keeps the type it was first (successfully) read or written with: once typed as T every later read as
+    U != T is an error and reads as T return the same value - whatever configuration is included in between."""
+    fixed = {}      # (m, name) -> (ty, number)
+    touched = set() # (m, name) accessed through a handle
+    late = {}       # (m, name) -> values of late includes addressing it so far
+    late_ok = True  # all late keys well-formed
     for o, r in zip(tops, res):
         if r[0] == 9:
-            return "%s: typed access panicked (%s)" % (where, o)
+            return "%s: operation panicked (%s)" % (where, o)
+        if o[0] == 6:
+            if not wf_key(o[2]):
+                late_ok = False
+            for m, path in enumerate(paths):
+                for name, vals in spec([(o[2], o[3])], path).items():
+                    late.setdefault((m, name), set()).update(vals)
+            continue
         m = o[1] % len(paths); key = (m, o[2])
+        touched.add(key)
         cfgv = dict(dumps[m]).get(o[2])
         if o[0] == 3:
             ty = o[3]
@@ -326,16 +362,20 @@ def check_typed(entries, paths, dumps, tops, res, where):
                 fty, fv = fixed[key]
                 if fty != ty:
                     if r[:2] == (3, 1) or r == (3, 0):
-                        return "%s: property '%s' fixed as %s was read as %s without an error: %s" % (where, _s(o[2]), TYN[fty], TYN[ty], r)
+                        return "%s: property '%s' of %s, typed as %s (value %d), was read as %s without an error: %s" % (
+                            where, _s(o[2]), _s(paths[m]), TYN[fty], fv, TYN[ty], r)
                 elif r != (3, 1, fv):
-                    return "%s: property '%s' (type %s, value %d) read back as %s" % (where, _s(o[2]), TYN[fty], fv, r)
+                    return "%s: property '%s' of %s (type %s, value %d) read back as %s" % (where, _s(o[2]), _s(paths[m]), TYN[fty], fv, r)
             else:
                 if r[:2] == (3, 1):
-                    if cfgv is None or cfgv[0] != 0:
-                        return "%s: read of unset property '%s' produced a value %s" % (where, _s(o[2]), r)
-                    want = cfgv[1] if ty in (0, 1) else None
-                    if want is None or r[2] != want:
-                        return "%s: configuration value %s of '%s' was reinterpreted as %s: %s" % (where, cfgv, _s(o[2]), TYN[ty], r)
+                    adm = set(late.get(key, ())) if late_ok else None
+                    if cfgv is not None:
+                        if cfgv[0] != 0:
+                            return "%s: non-scalar property '%s' produced a typed value %s" % (where, _s(o[2]), r)
+                        adm = {cfgv[1]}
+                    if adm is not None and (ty not in (0, 1) or r[2] not in adm):
+                        return "%s: read of property '%s' as %s produced %s; admissible configuration values: %s" % (
+                            where, _s(o[2]), TYN[ty], r, sorted(adm))
                     fixed[key] = (ty, r[2])
                 elif r == (3, 0):
                     if cfgv is not None:
@@ -345,7 +385,7 @@ def check_typed(entries, paths, dumps, tops, res, where):
             nv = v % 2 if ty == 3 else v
             if key in fixed and fixed[key][0] != ty:
                 if r == (4, 0):
-                    return "%s: property '%s' fixed as %s was written as %s without an error" % (where, _s(o[2]), TYN[fixed[key][0]], TYN[ty])
+                    return "%s: property '%s' typed as %s was written as %s without an error" % (where, _s(o[2]), TYN[fixed[key][0]], TYN[ty])
             elif r == (4, 0):
                 fixed[key] = (ty, nv)
             elif key in fixed:
@@ -353,9 +393,28 @@ def check_typed(entries, paths, dumps, tops, res, where):
         elif o[0] == 5:
             if key in fixed:
                 fty, fv = fixed[key]
-                want = {0: (0, fv), 1: (0, fv), 2: (2, fv), 3: (3, fv)}[fty]
-                if r[1] != want:
-                    return "%s: raw value of '%s' is %s, expected %s" % (where, _s(o[2]), r[1], want)
+                if r[1] != enc_typed(fty, fv):
+                    return "%s: raw value of '%s' is %s, expected %s" % (where, _s(o[2]), r[1], enc_typed(fty, fv))
+    # the final state of every module
+    for m, (path, fd) in enumerate(zip(paths, final)):
+        got = dict(fd)
+        init = dict(dumps[m])
+        for (mm, name), (fty, fv) in fixed.items():
+            if mm == m and got.get(name) != enc_typed(fty, fv):
+                return "%s: at the end property '%s' of %s holds %s, but it was typed as %s with value %d" % (
+                    where, _s(name), _s(path), got.get(name), TYN[fty], fv)
+        for name, v in init.items():
+            if (m, name) not in touched and got.get(name) != v:
+                return "%s: untouched property '%s' of %s changed from %s to %s" % (where, _s(name), _s(path), v, got.get(name))
+        if late_ok:
+            for (mm, name), vals in late.items():
+                if mm == m and (m, name) not in touched and name not in init:
+                    if name not in got or got[name][0] != 0 or got[name][1] not in vals:
+                        return "%s: late include did not deliver '%s' to %s (final value %s, entries %s)" % (
+                            where, _s(name), _s(path), got.get(name), sorted(vals))
+            for name in got:
+                if name not in init and (m, name) not in touched and (m, name) not in late:
+                    return "%s: at the end %s has a property '%s' nobody addressed" % (where, _s(path), _s(name))
     return None
 
 
@@ -372,8 +431,8 @@ def monitor(script, out):
     _, entries, paths, tops = parse(script)
     keys = [k for k, _ in entries]
     dup = len(set(keys)) != len(keys)
-    p1, flag, d1, r1 = w["l1"]
-    p2, d2, r2 = w["l2"]
+    p1, flag, d1, r1, f1 = w["l1"]
+    p2, d2, r2, f2 = w["l2"]
     if p1 is not None:
         return "capture panicked (des_net_utils::props)"
     if p2 is not None:
@@ -396,7 +455,8 @@ def monitor(script, out):
                 if m:
                     return m
     if paths:
-        return check_typed(entries, paths, d1, tops, r1, "props") or check_typed(entries, paths, d2, tops, r2, "des")
+        return (check_typed(entries, paths, d1, tops, r1, f1, "props") or
+                check_typed(entries, paths, d2, tops, r2, f2, "des"))
     return None
 
 
@@ -520,9 +580,51 @@ def gen_script(rng, malformed=False):
     return join([inc], ops)
 
 
+def gen_late(rng):
+    """nodes exist -> a property is read / written / looked up through a handle -> only then a configuration with a
+    matching entry (specific or '<any>') is included -> the property is re-read with another and with the same type"""
+    base = gen_script(rng, malformed=False)
+    inc, entries, paths, _ = parse(base)
+    hdr, ops = split(base)
+    ops = [o for o in ops if o[0] in (1, 2)]
+    if not paths:
+        return base
+    val = 500
+    for _ in range(rng.randint(1, 4)):
+        m = rng.randrange(len(paths))
+        names = list(spec(entries, paths[m]).keys())
+        name = rng.choice(names) if names and rng.random() < 0.5 else rng.choice(PROPS)
+        ty = rng.choice([0, 0, 1, 2, 3])
+        c = rng.random()
+        if c < 0.35: ops.append(e_read(m, name, ty))
+        elif c < 0.75: ops.append(e_write(m, name, ty, rng.randint(0, 300)))
+        elif c < 0.85: ops.append(e_raw(m, name))
+        # else: untouched before the include
+        segs = paths[m].split(b".")
+        w = rng.random()
+        if w < 0.5:
+            segs = [ANY if rng.random() < 0.6 else x for x in segs]
+        elif w < 0.6 and len(paths) > 1:
+            segs = paths[rng.randrange(len(paths))].split(b".")   # possibly another module
+        for _ in range(rng.choice([1, 1, 2])):
+            ops.append(e_late(b".".join(segs + [name]), val)); val += 1
+        other = rng.choice([t for t in range(4) if t != ty])
+        tail = [e_read(m, name, other), e_read(m, name, ty)]
+        if rng.random() < 0.4: tail.append(e_raw(m, name))
+        if rng.random() < 0.3: tail.append(e_write(m, name, other, rng.randint(0, 9)))
+        if rng.random() < 0.3: tail.insert(0, e_read(rng.randrange(len(paths)), name, rng.choice([0, 1])))
+        rng.shuffle(tail)
+        ops += tail
+    return join([inc], ops)
+
+
 def gen(rng, n):
     for i in range(n):
-        yield gen_script(rng, malformed=(rng.random() < 0.12))
+        c = rng.random()
+        if c < 0.25:
+            yield gen_late(rng)
+        else:
+            yield gen_script(rng, malformed=(c > 0.88))
 
 
 def exhaustive():
@@ -580,11 +682,27 @@ def mechanisms(script, out):
         if inc == 0: m.add("include_before_nodes")
         elif inc >= len(paths): m.add("include_after_nodes")
         else: m.add("include_between_nodes")
-    fixed = set()
+    acc = {}   # (module, name) -> kinds of access seen before
     for o in tops:
         if o[0] == 3: m.add("typed_read")
         if o[0] == 4: m.add("typed_write")
         if o[0] == 5: m.add("raw_read")
+        if o[0] == 6:
+            m.add("late_include")
+            if ANY in o[2].split(b"."): m.add("late_include_wildcard")
+            for i, p in enumerate(paths):
+                for name in spec([(o[2], o[3])], p):
+                    k = acc.get((i, name), set())
+                    if 4 in k: m.add("late_include_onto_written_property")
+                    if 3 in k: m.add("late_include_onto_read_property")
+                    if k and not (k - {5}): m.add("late_include_onto_looked_up_slot")
+                    if not k and name in spec(entries, p): m.add("late_include_onto_configured_property")
+                    if not k and name not in spec(entries, p): m.add("late_include_onto_fresh_property")
+                    acc.setdefault((i, name), set()).add(6)
+        elif paths:
+            k = acc.setdefault((o[1] % len(paths), o[2]), set())
+            if 6 in k and o[0] == 3: m.add("typed_read_after_late_include")
+            k.add(o[0])
     try:
         w = walk(script, out) if out else None
     except (Bad, IndexError):
